@@ -151,8 +151,7 @@ def judge_calls(ctx, header, trace):
 def calls_self_test(ctx, header):
     """RegistryTraceCalls must be able to say both things (pool: subscriber 2 matches "a" and never fails)."""
     h = json.loads(header)
-    ks = h["selKeys"][h["pool"][1]["sel"]]
-    msg = [[k[0], h["evVals"]["e1"][k[1]]] for k in ks]
+    msg = msg_of(h, 2, "e1")
     js = lambda r: json.dumps(r, separators=(",", ":"))
     good = [{"p": 0, "b": "init", "reg": []}, {"p": 1, "b": "subcall", "s": 2},
             {"p": 2, "b": "pub1", "id": "a", "ev": "e1", "cnt": 1, "err": False, "sent": [[2, msg]], "reg": [2]},
@@ -175,6 +174,13 @@ def record_and_judge(ctx, up, mode, args, label, timeout=900):
 
 
 # ---------------------------------------------------------------- probes: operations started inside callbacks
+
+def msg_of(header, s, ev):
+    """Registry!MsgOf for hand-written records."""
+    pe = header["pool"][s - 1]
+    shown = lambda k: k[2] == "" or (k[2] == "skip" and not pe["hide"]) or (k[2] == "incl" and pe["hide"])
+    return [[k[0], header["evVals"][ev][k[1]]] for k in header["selKeys"][pe["sel"]] if shown(k)]
+
 
 def _op_blocks(o, p, log):
     """The blocks of one operation with what was observed for it."""
@@ -311,8 +317,7 @@ def probes(ctx, up, label, fixtures=True):
         pool = header["pool"]
         msgs = {}
         for s in (1, 2):
-            ks = header["selKeys"][pool[s - 1]["sel"]]
-            msgs["MSG%d" % s] = [[k[0], header["evVals"]["e1"][k[1]]] for k in ks]
+            msgs["MSG%d" % s] = msg_of(header, s, "e1")
         for name, want, rec in PROBE_FIXTURES:
             if not (pool[0]["pat"] == "a" and pool[1]["pat"] == "a" and pool[0]["failAt"] == 1 and pool[1]["failAt"] == 0):
                 raise vlib.MachineryError("probe fixtures are written for a pool starting with two 'a' subscribers, the first failing at once")
